@@ -5,6 +5,8 @@ use lexical_util::iterator::{AsBytes, Iter};
 
 #[path = "comp_write.rs"]
 mod comp_write;
+#[path = "comp_parse.rs"]
+pub mod comp_parse;
 
 fn hex128(s: &str) -> u128 {
     u128::from_str_radix(s.trim_start_matches("0x"), 16).unwrap()
@@ -24,6 +26,14 @@ pub fn run_comp(op: &str, a: &[&str]) -> String {
         "rb" => format!("{:x}", f::NumberFormatBuilder::rebuild(hex128(a[0])).build_unchecked()),
         // pn FMT PARTIAL LOSSY EXP DP NAN INF INFINITY HEX
         "pn" => crate::dispatch_pn(crate::parse_fmt(a[0]), &a[1..]).unwrap_or_else(|| "nofmt".to_string()),
+        // algorithm components (comp_parse.rs): cf / lm (no format), bel / bin / sbin / fp TY FMT ..
+        "cf" => comp_parse::op_cf(a),
+        "lm" => comp_parse::op_lm(a),
+        "bel" | "bin" | "sbin" | "fp" => {
+            let mut v: Vec<&str> = vec![op, a[0]];
+            v.extend_from_slice(&a[2..]);
+            crate::dispatch_alg(crate::parse_fmt(a[1]), &v).unwrap_or_else(|| "nofmt".to_string())
+        },
         "td" | "gr" => comp_write::run(op, a),
         // fs TY HEX -> `core::str::FromStr` of Rust itself: `ok <bits|value> -` | `err FromStr -` (C12: STANDARD vs FromStr)
         "fs" => op_fs(a[0], &crate::unhex(a[1])),
